@@ -102,8 +102,11 @@ Definition books (p : post) : bool :=
 Definition caps_ok (b : basket) : bool :=
   forallb (fun t => t_weight t * t_amount t * PREC <=? value_of b * b_cap b + PREC) (b_tokens b).
 
+(* the checker's OWN record of accepted actions (block time in nanoseconds, amount): everything
+   inside the window of [period] seconds ending at [now], both ends included.  The stored history
+   of the module is never read. *)
 Definition in_period (log : history) (now period : Z) : Z :=
-  zsum (map (fun e => if now - period <=? fst e then snd e else 0) log).
+  zsum (map (fun e => if (now - period * 1000000000 <=? fst e) && (fst e <=? now) then snd e else 0) log).
 Definition delta (pre p : post) (a d : Z) : Z := bal_at p a d - bal_at pre a d.
 
 Definition cl (ok : bool) (name kind : string) : list string := if ok then [] else [(name ++ ":" ++ kind)%string].
